@@ -528,13 +528,21 @@ fn bodies(target: &str) -> Vec<Vec<u8>> {
     v
 }
 
-const CONTENT_TYPES: [Option<&str>; 6] = [
+const CONTENT_TYPES: [Option<&str>; 13] = [
     Some("application/json"),
     Some("application/json; charset=utf-8"),
     Some("text/plain"),
     None,
     Some("application/vnd.api+json"),
     Some("APPLICATION/JSON"),
+    // parameters the frameworks' own extractors ignore or judge by their own rules
+    Some("application/json; charset=iso-8859-1"),
+    Some("application/json;charset=UTF-16LE"),
+    Some("application/json; charset=\"windows-1252\""),
+    Some("application/json; charset=bogus; boundary=x"),
+    Some("text/plain; charset=iso-8859-1"),
+    Some("application/json "),
+    Some(""),
 ];
 
 fn query_strings() -> Vec<String> {
